@@ -6,5 +6,8 @@ L="${VERIF_LOGDIR:-/root/.cache/verif-garble/logs}"; mkdir -p "$L"
 for id in "$@"; do
   s=$(date +%s)
   ./check "$id" "$tier" > "$L/$id.$tier.out" 2> "$L/$id.$tier.err"
-  echo "$id $tier exit=$? $(( $(date +%s) - s ))s" | tee -a "$L/summary.txt"
+  rc=$?
+  echo "$id $tier exit=$rc $(( $(date +%s) - s ))s" | tee -a "$L/summary.txt"
+  # keep a copy of thorough-tier evidence (evidence/<id>.json is rewritten by every run)
+  if [ "$tier" = thorough ] && [ -f "evidence/$id.json" ]; then mkdir -p evidence/thorough && cp "evidence/$id.json" "evidence/thorough/$id.json"; fi
 done
